@@ -38,7 +38,7 @@ ANCHORS = [
     "acnportal.acnsim.models.evse:BaseEVSE._from_dict",
     "acnportal.acnsim.base:BaseSimObj._build_from_id",
 ]
-REQUIRED = ["resume_points_on_a_network_assigning_spaces_at_random", "json_via:path", "json_via:pathlib", "json_via:handle", "points:resume", "points:json", "mode:before", "mode:after", "interrupted_in_final_period", "interrupted_in_first_period",
+REQUIRED = ["scenarios_with_the_public_limit_table_edited_after_setup", "resume_points_on_a_network_assigning_spaces_at_random", "json_via:path", "json_via:pathlib", "json_via:handle", "points:resume", "points:json", "mode:before", "mode:after", "interrupted_in_final_period", "interrupted_in_first_period",
             "identity_checks", "canonical_dumps_compared", "queue_orders_compared", "pending:Plugin", "pending:Unplug", "pending:Recompute",
             "evse:EVSE", "evse:DB", "evse:FR", "battery:ideal", "battery:l2", "battery:noise", "hist:on", "hist:off", "sched:scripted",
             "sched:uncontrolled", "sched:sorted", "tz:aware", "tz:naive"]
@@ -61,6 +61,7 @@ def cases(seed, tier):
         d["hist"] = rng.random() < 0.5
         d["keyboard"] = rng.random() < 0.15  # the interruption is a KeyboardInterrupt (not an Exception subclass)
         d["tz"] = rng.choice(TZS) if rng.random() < 0.35 else None
+        d["meddle"] = rng.random() < 0.25  # the algorithm edits, in place, the infrastructure description it is handed
         if d["scheduler"]["kind"] != "sorted" and rng.random() < 0.2:
             # more cars than spaces on a network that assigns spaces at random
             ids_ = [s_["id"] for s_ in d["network"]["stations"]][:3]
@@ -76,6 +77,12 @@ def cases(seed, tier):
                 sess_.append({"id": f"q{k}", "station": rng.choice(ids_), "arrival": a, "departure": a + rng.randint(1, 7), "requested": req,
                               "est_dep": a + 3, "battery": gen.rand_battery(rng, req, ("ideal", "l2c"))})
             d["sessions"], d["recompute"], d["stochastic"], d["early"] = sess_, [], True, rng.random() < 0.4
+        if d["scheduler"]["kind"] in ("uncontrolled", "sorted") and not d.get("stochastic") and rng.random() < 0.35 and \
+                all(s_["evse"]["t"] == "EVSE" and s_["evse"].get("min", 0) == 0 and s_["evse"]["max"] >= 16 and not s_["evse"].get("user")
+                    for s_ in d["network"]["stations"]):
+            # the user derates the site after building it, through the network's public table of maximum pilots (what the
+            # schedulers are shown): part of the state like everything else
+            d["derate"] = rng.choice([6, 12.5, 16])
         out.append({"desc": d, "double": tier == "thorough" and rng.random() < 0.3, "pseed": rng.randrange(1 << 30)})
     return out
 
@@ -114,6 +121,17 @@ def flaky_cls():
             def schedule(self, active_sessions):
                 t = self.interface.current_time
                 self.invoked.append(t)
+                if getattr(self, "meddle", False):
+                    # a user algorithm that works on "its copy" of the infrastructure description in place (keeps some headroom
+                    # below every limit, halves what it thinks the stations take) before deciding - in every call, also in the
+                    # one that fails: what it is handed is a copy, so neither the run nor the saved state may notice
+                    try:
+                        info_ = self.interface.infrastructure_info()
+                        info_.constraint_limits -= 0.75
+                        info_.max_pilot *= 0.5
+                        info_.phases += 30.0
+                    except Exception:
+                        pass
                 exc_ = BoomKI if getattr(self, "keyboard", False) else Boom
                 if t in self.fail_at and self.mode == "before":
                     self.fail_at.discard(t)
@@ -240,6 +258,7 @@ def make_sim(d, fail_at=(), mode="before"):
     inner = build_scheduler(d)
     fl = flaky_cls()(inner, fail_at, mode)
     fl.keyboard = bool(d.get("keyboard"))
+    fl.meddle = bool(d.get("meddle"))
     kw = {}
     if d.get("stochastic"):
         # spaces assigned at run time with the global `random` stream: reference and interrupted run start from the same seed,
@@ -248,6 +267,8 @@ def make_sim(d, fail_at=(), mode="before"):
         kw = dict(net_cls=StochasticNetwork, net_kw={"early_departure": bool(d.get("early"))})
         random.seed(d.get("np_seed", 0))
     sim, evs = build.build_sim(d, scheduler=fl, store_schedule_history=bool(d.get("hist")), **kw)
+    if d.get("derate") is not None:
+        sim.network.max_pilot_signals[:] = np.minimum(sim.network.max_pilot_signals, d["derate"])
     if getattr(inner, "sd", None) is not None:
         inner.sim = sim  # the user built both (the scripted scheduler looks at public attributes of its simulator)
     return sim, fl
@@ -294,6 +315,10 @@ def run_case(case, obs):
         T = ref.iteration
         sd = d["scheduler"]
         obs.ev("sched:" + sd["kind"])
+        if d.get("derate") is not None:
+            obs.ev("scenarios_with_the_public_limit_table_edited_after_setup")
+        if d.get("meddle"):
+            obs.ev("scenarios_whose_algorithm_edits_its_copy_of_the_infrastructure_in_place")
         obs.ev("hist:on" if d.get("hist") else "hist:off")
         obs.ev("tz:aware" if d.get("tz") else "tz:naive")
         for s in d["network"]["stations"]:
